@@ -1351,7 +1351,7 @@ func cmdC19ReplayChild(args []string) {
 		hlib.Fatal("world: %v", err)
 	}
 	installSessionGates()
-	steps, fails, skipped, done := 0, 0, 0, 0
+	steps, fails, skipped, done, notReproduced := 0, 0, 0, 0, 0
 	var failTime time.Duration
 	sigFails := map[string]int{}
 	for i := start; i < len(scheds); i++ {
@@ -1373,6 +1373,18 @@ func cmdC19ReplayChild(args []string) {
 		steps += len(sc.Steps)
 		t0 := time.Now()
 		f, sig := replaySchedule(w, sc)
+		if f != nil && f.class == "session/replay/blocked" {
+			// a forced schedule is deterministic: a goroutine that does not arrive because the code blocks does so again;
+			// one that was merely not scheduled in time (a loaded machine) does not.  A verdict needs the reproduction.
+			for try := 0; try < 2; try++ {
+				f2, sig2 := replaySchedule(w, sc)
+				if f2 == nil || f2.class != "session/replay/blocked" {
+					notReproduced++
+					f, sig = f2, sig2
+					break
+				}
+			}
+		}
 		done++
 		if f != nil {
 			out.Fail(f.class, f.detail, map[string]interface{}{"schedule": sc.String(), "expected_open": sc.Open, "services": sp.Adv, "step_kind": sig})
@@ -1391,6 +1403,7 @@ func cmdC19ReplayChild(args []string) {
 	out.Distinct(done)
 	out.Extra("steps", float64(steps))
 	out.Extra("skipped_after_repeated_failure", float64(skipped))
+	out.Extra("blocked_once_not_reproduced", float64(notReproduced))
 	out.End()
 	w.close()
 }
